@@ -18,6 +18,8 @@ CHECKS = {
          "value lengths below 2^32-300", "6/C06"),
  "C07": ("Theorems: incr = (v+d) mod 2^64, decr = max(v-d,0), stored text = decimal of the returned number and parses back (parseU64_toDec, all n < 2^64), flags kept, creation with initial value / flags 0, no creation for expiration 0xffffffff, non-numeric -> status 6 and unchanged, what parses is characterised (digits incl. leading zeros, optional +; empty, sign, space, overflow rejected). Tie: seq suite with the decimal pool and extreme deltas; big-integer oracle.",
          "`+digits` values are unconstrained by the property (accepted by Rust's parser); the oracle accepts either outcome", "6/C07"),
+ "C11": ("Theorems (generic in the store: every outcome the storage layer can produce): every response the handler emits for any request of any opcode satisfies the layout predicate wellFormed (opcode and opaque echoed, status from the protocol table, 4 flag bytes exactly on hits, key echoed iff get-key, 8 bytes for counters, message text on errors, body length = extras+key+value) (C11_wellformed); a well-formed response occupies exactly 24+body_length bytes (C11_frame_length); magic 0x81 and data type 0. Tie: seq suite over all opcodes incl. unsupported and non-standard frames; every response of every suite is parsed by an independent parser in the harness.",
+         "value lengths below 2^32-300 (body_length is a u32)", "6/C11"),
  "C08": ("Theorems: delete removes exactly the addressed key (frame), not found / key exists rules, deleted stays gone; immediate flush hides everything at all times, delayed flush hides everything from now+n on, flushed stays gone over any history until re-stored, a flush never makes anything more visible, later stores unaffected. Tie: seq multi-key profile with deletes and immediate/delayed flushes at non-zero times; membership-and-deadline oracle.",
          "delete / CAS-store addressed to an expired uncollected record may answer as present or absent (the property does not list them)", "6/C08"),
 }
